@@ -22,30 +22,47 @@ PROP = dict(
                   "user B-tree minus tombstones (in-memory TrieBuf semantics), not through Layered or the editor"],
     assumptions=["page size >= 1 (the C API validates 1..10; the Rust API does not: per = 0 makes total_page panic, "
                  "Props/C07 per_page_zero_panics)",
-                 "theorems hold for every environment; hypotheses on it are explicit (flush keeps lookups, every "
-                 "buffered syllable has a word, symbol tables have no empty rows)",
+                 "theorems hold for every environment; hypotheses on it are explicit: FlushKeepsLookups (the reopen+flush "
+                 "after a key does not change lookup answers - C09/C10's subject) for the page invariant; RangeIs (the "
+                 "highlighted symbols are syllables) for completeness - proved for the selector's loops only by "
+                 "correspondence + oracle so far",
+                 "env.lookupAll is Layered::lookup_all_phrases (system layers + user layer minus removed entries); that "
+                 "it returns what the layers hold is checked by the oracle against the raw layers, and is C09's theorem",
                  "the C glue (chewing_cand_*) is modelled in Model/Candidates.lean as thin wrappers of the Rust getters "
                  "(by reading); the correspondence drives the Rust getters"],
 )
 
 MANIFEST = dict(
-    text="Lean 4 theorems (Chewing/Props/C07.lean, lemmas in Proofs/EditorSelect.lean) over the executable editor model "
-         "(Model/Editor.lean: PhraseSel / SymSel / special-symbol selectors, Selecting.{candidates,totalPage,select}, every "
-         "Selecting key arm, Editor.{select,jump,startSelecting}; Model/Candidates.lean: the getters and the C glue), for every "
-         "environment: total_page_spec + pages_partition (page count = ceil(n/per), pages tile the list in order, each "
-         "non-empty and <= per), page_in_range (current page < page count is preserved by every key / select / jump step "
-         "and every range change restarts at page 0), phrase_list_complete + range_is_syllables (the list is the dictionary "
-         "lookup of exactly the highlighted symbols, all of them syllables, plus the layout's alternates for a single "
-         "syllable), choose_places (item page*per+n is pushed as the selection of begin..end, overlapping selections go, "
-         "others stay, cursor restored, list closed; symbol lists insert / replace exactly that character or descend), "
-         "choose_out_of_range_rejected (Bell, nothing changed, for phrase lists), selector_loops_terminate under HasWord. "
-         "Tie: per-step correspondence of the model with the real editor and its candidate getters from the "
-         "implementation's own pre-state, plus the property evaluated directly on the real editor with an independently "
-         "computed dictionary answer (oracle_c07.rs). F04, F08 and the missing page reset of j/k/jump were repaired by "
-         "fix: commits; F32 (stale page after option/layout/dictionary calls) and the symbol-list answer to an "
-         "out-of-range choice are known findings with exact classes.",
+    text="Lean 4 theorems (Chewing/Props/C07.lean; lemmas in Proofs/Paging.lean, Proofs/EditorSelect.lean) over the "
+         "executable editor model (Model/Editor.lean: phrase / symbol-table / special-symbol selectors, "
+         "Selecting.{candidates,totalPage,select}, every Selecting key arm, Editor.{select,jump,startSelecting}; "
+         "Model/Candidates.lean: the four getters and the chewing_cand_* glue), for every environment and state. "
+         "THEOREMS: total_is_length, enumerate_is_page (reported total = length of what is enumerated; Enumerate on page p "
+         "starts at item p*per); page_count (total_page = ceil(n/per): least k with n <= k*per, closed form n/per + [n%per!=0]); "
+         "pages_partition + page_item (for every list, page size >= 1 and page index: pages 0..count-1 concatenated are the "
+         "list, all but the last full, each non-empty and <= per, pages beyond the count empty, item i of page p is item "
+         "p*per+i); page_in_range_key / page_in_range_op / page_in_range_partial (current page < page count, or nothing "
+         "listed, is an invariant of every key event - all arms of all four states -, select(n), the four jumps, "
+         "start/cancel_selecting, commit, reset, and of every history without a configuration/dictionary call made while a "
+         "list is open; every opening / re-targeting starts at page 0); page_in_range_refuted (F32: with such a call the "
+         "invariant fails - concrete witness evaluated in the model); offset_item / offset_is_page_item, choose_phrase, "
+         "choose_places, choose_phrase_closes, editor_choose_closes (choosing n on page p of a phrase list pushes exactly item "
+         "p*per+n as the selection of begin..end, replaces exactly the overlapping earlier choices (C04), restores the saved "
+         "cursor, closes the list; the saturating usize arithmetic is unobservable); choose_out_of_range_rejected / "
+         "editor_choose_out_of_range (every list kind: Bell / Err, selector, page and shared state unchanged), choose_outcomes; "
+         "phrase_list_complete (the list is the dictionary answer for exactly the highlighted syllables, in order, plus the "
+         "answers for the layout's alternative syllables of a single syllable). "
+         "CORRESPONDENCE: every step of generated selection-heavy histories on the real editor and every round of the "
+         "candidate getters is recomputed by the model from the implementation's own pre-state (0 differences required); the "
+         "property is also evaluated directly on the real editor (oracle_c07.rs: paging identities, page in range, "
+         "completeness against an independently computed answer from the raw dictionary layers, the effect of every choice "
+         "incl. indices beyond the list and usize::MAX). NOT YET THEOREMS: that the highlighted range always consists of "
+         "syllables (RangeIs is a premise), the exact effect of an in-range choice on the two symbol lists (shape only: "
+         "closes or descends to page 0), termination of the selector loops. F04, F08, the missing page reset of j/k/jump "
+         "and the symbol lists' answer to an out-of-range choice were repaired by fix: commits; F32 is a known finding.",
     note="Trusted: Lean kernel (standard axioms), read-only snapshot hooks, harness + compiled model driver. The C functions "
-         "chewing_cand_* are modelled by reading (thin wrappers).",
-    technique="Lean 4 proof (list arithmetic, loop invariants with fuel, case analysis over the Selecting arms); per-step "
-              "model/implementation correspondence incl. the candidate getters",
+         "chewing_cand_* are modelled by reading (thin wrappers over the Rust getters the correspondence drives).",
+    technique="Lean 4 proof (list/division arithmetic for all lists and page sizes; invariant by case analysis over every arm "
+              "of the key-event state machine and induction over histories; refutation by evaluation of a concrete "
+              "witness); per-step model/implementation correspondence incl. the candidate getters",
 )
